@@ -43,6 +43,11 @@ NONE == <<9, 0, 0, 0>>
 
 TLess(a, b) == a[1] < b[1] \/ (a[1] = b[1] /\ a[2] < b[2])
 
+\* Times are absolute (they only move forward); the CALENDAR day the program sees is the day of the time in the
+\* current time zone.  G.tz is the zone's offset in whole days (0 at the start; the environment may move the
+\* process into another zone - ShiftZone - so that the local date goes back while time goes on).
+LD(G, t) == t[1] + G.tz
+
 \* file states: "plain" whole records; "gz" complete gzip member; "gzw" compressed file being written
 \* (or left behind unfinished by a crash); "foreign"; "special" a directory (or other non-regular file)
 \* that happens to carry a rotated name - invisible to QDir::Files, but QFile::exists() sees it
@@ -121,7 +126,7 @@ DoInt(S, C, T) ==
       [] pc = "init" ->
             IF S.sk.inited THEN [S EXCEPT !.sk.pc = "daily"]
             ELSE [S EXCEPT !.sk.inited = TRUE,
-                           !.sk.curDay = IF DiskSize(S, ACTIVE) > 0 THEN S.dir[ACTIVE].mt[1] ELSE T[1],
+                           !.sk.curDay = IF DiskSize(S, ACTIVE) > 0 THEN LD(S.g, S.dir[ACTIVE].mt) ELSE LD(S.g, T),
                            !.sk.pc = IF C.startup THEN "startupF" ELSE "daily"]
       [] pc = "startupC" ->
             IF ActSize(S) > 0 THEN [S EXCEPT !.sk.trig = "startup", !.sk.pc = "rot"]
@@ -145,7 +150,7 @@ DoInt(S, C, T) ==
       [] pc = "rot" ->
             IF C.N = 1 THEN AfterRot(S, T) ELSE [S EXCEPT !.sk.pc = "rotF"]
       [] pc = "rotPick" ->
-            LET d == IF S.sk.curDay >= 0 THEN S.sk.curDay ELSE T[1]
+            LET d == IF S.sk.curDay >= 0 THEN S.sk.curDay ELSE LD(S.g, T)
                 rn == Rot(d, NextIdx(S.dir, d), 0)
             IN  IF rn \in DOMAIN S.dir                      \* QFile::rename: "destination file exists"
                 THEN [S EXCEPT !.sk.rn = rn, !.g.faulted = TRUE, !.sk.pc = "ret"]
@@ -156,7 +161,7 @@ DoInt(S, C, T) ==
                      k == Len(sorted) - (C.N - 1)
                  IN  [S EXCEPT !.sk.vict = IF k > 0 THEN SubSeq(sorted, 1, k) ELSE <<>>, !.sk.pc = "retU"]
       [] pc = "retU" -> [S EXCEPT !.sk.pc = "reopen"]                            \* no victim left
-      [] pc = "setDay" -> AfterRot([S EXCEPT !.sk.curDay = T[1]], T)
+      [] pc = "setDay" -> AfterRot([S EXCEPT !.sk.curDay = LD(S.g, T)], T)
 
 \* the labels of the libc calls the machine may make next: [c, f, t, m]
 Lab(c, f, t, m) == [c |-> c, f |-> f, t |-> t, m |-> m]
@@ -209,7 +214,7 @@ DoSys(S, C, T, lab, ok) ==
             \* QFile::flush(): one write() of the whole buffer
             [S EXCEPT !.dir[ACTIVE].recs = @ \o S.sk.buf, !.dir[ACTIVE].mt = T,
                       !.g.flushed = @ \cup RecSet(S.sk.buf),
-                      !.g.stale = @ \/ (\E r \in RecSet(S.sk.buf) : S.g.rday[r] # T[1]),
+                      !.g.stale = @ \/ (\E r \in RecSet(S.sk.buf) : S.g.rday[r] # LD(S.g, T)),
                       !.sk.buf = <<>>, !.sk.pc = FlushNext(pc)]
       [] pc = "appW" ->
             \* a record larger than the buffer is written directly
@@ -295,7 +300,7 @@ OptionalFlushPc(pc) == pc \in {"startupF", "dailyF", "sizeF"}
 FlushNow(S, T) ==
     [S EXCEPT !.dir[ACTIVE].recs = @ \o S.sk.buf, !.dir[ACTIVE].mt = T,
               !.g.flushed = @ \cup RecSet(S.sk.buf),
-              !.g.stale = @ \/ (\E r \in RecSet(S.sk.buf) : S.g.rday[r] # T[1]),
+              !.g.stale = @ \/ (\E r \in RecSet(S.sk.buf) : S.g.rday[r] # LD(S.g, T)),
               !.sk.buf = <<>>]
 
 \* run all internal steps up to the next libc call (or to rest); they are deterministic
@@ -314,7 +319,7 @@ Idle == sk.alive /\ sk.pc = "idle"
 BeginSend(len) ==
     /\ Idle
     /\ LET r == Len(g.rlen) + 1
-       IN  /\ g' = [g EXCEPT !.rlen = Append(@, len), !.rday = Append(@, now[1])]
+       IN  /\ g' = [g EXCEPT !.rlen = Append(@, len), !.rday = Append(@, LD(g, now))]
            /\ sk' = [sk EXCEPT !.msg = r, !.pc = "init"]
     /\ UNCHANGED <<cfg, dir, now>>
 
@@ -322,7 +327,7 @@ BeginFlush == Idle /\ sk' = [sk EXCEPT !.pc = "flushOp"] /\ UNCHANGED <<cfg, dir
 
 \* the stop rule of the environment (DESIGN 3.1j): the process is not stopped while the active file or
 \* the buffer holds records of an earlier day than the one they are (or would be) flushed on
-CanStop == ~g.stale /\ \A i \in 1..Len(sk.buf) : g.rday[sk.buf[i]] = now[1]
+CanStop == ~g.stale /\ \A i \in 1..Len(sk.buf) : g.rday[sk.buf[i]] = LD(g, now)
 
 BeginDestroy == Idle /\ sk' = [sk EXCEPT !.pc = "destroyF"] /\ UNCHANGED <<cfg, dir, now, g>>
 
@@ -368,6 +373,17 @@ Abort ==
 
 SetNow(t) == /\ (t = now \/ TLess(now, t)) /\ now' = t /\ UNCHANGED <<cfg, dir, sk, g>>
 
+\* the process finds itself in another time zone (TZ changed, a laptop that travelled): the local date jumps by
+\* whole days - possibly BACK - although time itself goes on.  The active file then holds records of another local
+\* day than the clock says (the same situation as a file written yesterday), hence g.stale.
+ShiftZone(z, t) ==
+    /\ ~sk.alive \/ sk.pc = "idle"
+    /\ z # g.tz
+    /\ TLess(now, t) /\ now' = t           \* it does not happen within one tick of the file system's clock
+    /\ g' = [g EXCEPT !.tz = z, !.zoned = TRUE,
+                      !.stale = @ \/ (ACTIVE \in DOMAIN dir /\ dir[ACTIVE].recs # <<>>)]
+    /\ UNCHANGED <<cfg, dir, sk>>
+
 ---------------------------------------------------------------------------
 \* Initial state for a directory D0 holding records 1..Len(rlen0) and configuration c
 
@@ -376,7 +392,8 @@ Ghost0(D0, rlen0, rday0, hist0) ==
      flushed |-> RecSet(hist0), removed |-> {}, retired |-> {},
      used |-> RotNames(D0), used0 |-> RotNames(D0), order |-> <<>>,
      foreign0 |-> [n \in {x \in DOMAIN D0 : IsForeign(x)} |-> D0[n]],
-     crashed |-> FALSE, faulted |-> FALSE, stale |-> FALSE, restarts |-> 0, fatalLost |-> FALSE, reconfigured |-> FALSE]
+     crashed |-> FALSE, faulted |-> FALSE, stale |-> FALSE, restarts |-> 0, fatalLost |-> FALSE, reconfigured |-> FALSE,
+     tz |-> 0, zoned |-> FALSE]
 
 InitWith(c, D0, rlen0, rday0, hist0, t0) ==
     /\ cfg = c /\ dir = D0 /\ sk = Dead /\ now = t0
@@ -388,12 +405,18 @@ InitWith(c, D0, rlen0, rday0, hist0, t0) ==
 Clean == ~g.crashed /\ ~g.faulted
 
 \* rotation order of what is in the directory: (day, idx); a rotated log is present as its plain file,
-\* or - once that has been removed - as its complete compressed file
+\* or - once that has been removed - as its complete compressed file.  Once the local date has gone back
+\* (ShiftZone) the names no longer tell the order in which the files were rotated: what was there at the start
+\* comes first (by name), then the rotations of this history in the order they happened (g.order).
 Slots == {<<n[2], n[3]>> : n \in RotNames(dir)}
+OrderPos(s) == LET is == {i \in 1..Len(g.order) : g.order[i][2] = s[1] /\ g.order[i][3] = s[2]}
+               IN  IF g.zoned /\ is # {} THEN CHOOSE i \in is : TRUE ELSE 0
+SlotLess(x, y) == \/ OrderPos(x) < OrderPos(y)
+                  \/ OrderPos(x) = OrderPos(y) /\ (x[1] < y[1] \/ (x[1] = y[1] /\ x[2] < y[2]))
 RECURSIVE SortSlots(_)
 SortSlots(ss) ==
     IF ss = {} THEN <<>>
-    ELSE LET m == CHOOSE x \in ss : \A y \in ss \ {x} : x[1] < y[1] \/ (x[1] = y[1] /\ x[2] < y[2])
+    ELSE LET m == CHOOSE x \in ss : \A y \in ss \ {x} : SlotLess(x, y)
          IN  <<m>> \o SortSlots(ss \ {m})
 SlotRecs(s) ==
     LET p == Rot(s[1], s[2], 0)
@@ -482,6 +505,7 @@ W_NeverCompresses == \A n \in RotNames(dir) : dir[n].st # "gz"
 W_NeverLeftover == ~(g.crashed /\ \E n \in RotNames(dir) : dir[n].st = "gzw")
 W_NeverFaulted == ~g.faulted
 W_NeverTwoDays == \A i, j \in 1..Len(g.hist) : g.rday[g.hist[i]] = g.rday[g.hist[j]]
+W_NeverZonedRotation == ~(g.zoned /\ \E i \in 1..Len(g.order) : \E j \in 1..Len(g.order) : i < j /\ g.order[j][2] < g.order[i][2])
 W_NeverDirectWrite == \A i \in 1..Len(g.hist) : g.rlen[g.hist[i]] <= BufCap
 
 TypeOK ==
